@@ -187,6 +187,24 @@ func (e *Exec) checkPost(retIdx int, reach string, h *Heap, vals []Term, pos tok
 	for _, gs := range e.con.GhostSets {
 		h = e.applyGhostSet(gs, h, at, reach)
 	}
+	if len(e.con.RowAssigns) > 0 {
+		env0 := e.topEnv(e.heap0, nil, "true")
+		e.u().clockVar()
+		oldc := e.heap0.get("clock")
+		for so, bases := range e.rowBases(e.con, env0) {
+			ev := e.u().elemVar(so)
+			E, E2 := e.heap0.get(ev), h.get(ev)
+			var ne []string
+			for _, b := range bases {
+				ne = append(ne, not(eq("b", b)))
+			}
+			cond := fmt.Sprintf("(forall ((b Int)) (=> (and (< b %s) (>= b 0) %s) (= (select %s b) (select %s b))))", oldc, and(ne...), E2, E)
+			if E == E2 {
+				cond = "true"
+			}
+			vc.oblig("rows", string(so), reach, cond, "only the rows named by assigns_rows (and fresh rows) of "+ev+" are written", pos)
+		}
+	}
 	for j, cl := range e.con.clauses("ensures") {
 		env := e.topEnv(h, at, reach)
 		var ret Term
@@ -286,11 +304,22 @@ func (p *Program) VerifyFunction(u *Universe, fn *ssa.Function) *VC {
 		allowed, all := p.expandAssigns(u, e.con.Assigns)
 		if !all {
 			am := map[string]bool{"clock": true}
+			for _, x := range e.con.RowAssigns {
+				env0 := e.topEnv(e.heap0, nil, "true")
+				if t, err := env0.eval(x); err == nil && t.T != nil {
+					if st, ok := t.T.Underlying().(*types.Slice); ok {
+						am[u.elemVar(u.sortOf(st.Elem()))] = true
+					}
+				}
+			}
 			for _, a := range allowed {
 				am[a] = true
 			}
 			p.ensureModsets(u)
 			ims := p.modsetNoFix(u, fn)
+			if rm := p.regionModset(u, fn); rm != nil {
+				ims = rm // writes that only reach objects allocated during the call are level 1
+			}
 			ia, iv := ims.all, ims.names()
 			fa, _ := p.expandAssigns(u, e.con.FreshAssigns)
 			for _, a := range fa {
@@ -301,7 +330,16 @@ func (p *Program) VerifyFunction(u *Universe, fn *ssa.Function) *VC {
 			if ia {
 				vc.oblig("assigns", "everything", "true", "false", "function may write anything (dynamic call) but declares a frame", fn.Pos())
 			}
+			hasMaps := false
+			for _, c := range append(append([]string{}, e.con.Assigns...), e.con.FreshAssigns...) {
+				if strings.TrimSpace(c) == "maps" {
+					hasMaps = true
+				}
+			}
 			for _, v := range iv {
+				if hasMaps && (strings.HasPrefix(v, "MD_") || strings.HasPrefix(v, "MV_") || v == "ML") {
+					am[v] = true
+				}
 				if !am[v] {
 					vc.oblig("assigns", v, "true", "false", "function may write "+v+" which is outside its assigns clause", fn.Pos())
 				} else {
